@@ -1,4 +1,7 @@
 import Proofs.Observe.Client
+import Proofs.Observe.Joint
+import Properties.C02
+import Properties.C10
 /-!
 # C07 — observe client: notifications in freshness order, termination signalled once
 
@@ -23,19 +26,6 @@ theorem chainFresh_cons {reset : Nat} {a : Nat × Nat} {l : List (Nat × Nat)} :
   cases l with
   | nil => simp [ChainFresh]
   | cons b rest => simp [ChainFresh]
-
--- single steps from `observing` ------------------------------------------------------------------
-
-/-- what one notification does while an observation is established -/
-theorem step_notification (cfg : Cfg) (v1 t1 t : Nat) (m : Msg) (v2 : Nat) (last : Bool)
-    (h : m.obs = some v2) :
-    step cfg (.observing v1 t1) ⟨t, .message m last⟩ =
-      (if last then .ended else if fresher cfg.reset v1 t1 v2 t then .observing v2 t
-        else .observing v1 t1,
-       (if fresher cfg.reset v1 t1 v2 t then [.callback m] else []) ++
-       (if last then [.errback .observationCancelled] else [])) := by
-  simp only [step, stepObserving, h]
-  cases last <;> simp
 
 -- C07 clause 1: only notifications fresher than the last one handed over ------------------------
 
@@ -741,5 +731,194 @@ theorem C07_only_stop_after_end (cfg : Cfg) (s : ObsState) (es : List TEvent) :
       exact ih _
     · rw [over_deliveries (Or.inl hend), List.append_nil]
       exact step_afterEnd cfg s e
+
+-- C07 clause 7: joint with the message layer — after the end the token is retired -----------------
+
+open Aiocoap.MsgLayer in
+/-- **C07 (the token manager marks a response without Observe as last).** Whatever
+`process_response` puts on a request's pipe for a datagram without Observe option is marked last
+— so on the real stack a first response without Observe always takes the `NotObservable` branch
+and a later one the `callback, ObservationCancelled` branch of the runner, and the runner never
+has to withdraw from the pipe itself; and for a request that observes, a datagram *with* Observe
+option is never marked last. -/
+theorem C07_joint_no_observe_is_last (s : MsgLayer.State) (remote : Remote) (w : Wire) (r : Nat)
+    (w' : Wire) (f : Bool) (h : (r, w', f) ∈ respOf (processResponse s remote w).2.1) :
+    pipeEventOf r (.response r w' f) = some (.message (msgOfWire w) f) ∧
+    (w.obs = none → f = true ∧ Event.terminating (.message (msgOfWire w) f) = true) ∧
+    ((∀ o ∈ s.outgoing, o.req = r → o.observing = true) → w.obs.isSome = true → f = false) := by
+  obtain ⟨hw, _, o, ho, hr, _, _, hf⟩ := C02_delivery_matches s remote w r w' f h
+  subst hw
+  refine ⟨by simp [pipeEventOf], ?_, ?_⟩
+  · intro hn
+    have : f = true := by rw [hf, hn]; simp
+    exact ⟨this, by simp [Event.terminating, this]⟩
+  · intro hob hs
+    rw [hf, hob o ho hr, hs]; rfl
+
+/-- **C07 (once the runner has returned, the token is retired).** Start from any state of the
+message layer in which request `r` is not registered, submit it, and let anything happen — any
+datagrams from anywhere (notifications in any order, duplicates, forged ones, Resets), timers,
+transport errors, other requests, shutdown, application cancellations — as long as `r` is not
+submitted again.  Whenever the runner of `r` has returned (state `ended`: it was told the pipe's
+last event, or it withdrew), `outgoing_requests` holds no entry for `r` any more. -/
+theorem C07_joint_end_retires_token (cfg : Cfg) (r : Nat) (ms0 : MsgLayer.State)
+    (h0 : ∀ o ∈ ms0.outgoing, o.req ≠ r) (t0 : Nat) (remote : MsgLayer.Remote) (mc ob : Bool)
+    (m : MsgLayer.OutMsg) (es : List JEv) (hns : ∀ e ∈ es, e.isSubmit r = false) :
+    (jointRun cfg r ⟨ms0, .awaitingFirst⟩ (.net ⟨t0, .submit r remote mc ob m⟩ :: es)).1.st = .ended →
+    ∀ o ∈ (jointRun cfg r ⟨ms0, .awaitingFirst⟩
+      (.net ⟨t0, .submit r remote mc ob m⟩ :: es)).1.ms.outgoing, o.req ≠ r := by
+  have h0' : MsgLayer.outCount ms0 r = 0 := by
+    simp only [MsgLayer.outCount, List.countP_eq_zero]
+    intro o ho; simpa using h0 o ho
+  have hfirst : JInv r (jointStep cfg r ⟨ms0, .awaitingFirst⟩
+      (.net ⟨t0, .submit r remote mc ob m⟩)).1 := by
+    apply jointStep_inv
+    · simp [JEv.isSubmit, h0']
+    · intro h; cases h
+  have hinv := jointRun_inv cfg r _ es hfirst hns
+  intro hend o ho
+  have hz := hinv.2 (by simpa [jointRun] using hend)
+  simp only [MsgLayer.outCount, List.countP_eq_zero] at hz
+  have := hz o (by simpa [jointRun] using ho)
+  simpa using this
+
+open Aiocoap.MsgLayer in
+/-- **C07 (after the end, later notifications reach nobody).** In a state in which request `r`
+has no table entry (e.g. the one `C07_joint_end_retires_token` ends in), `process_response` puts
+nothing on the pipe of `r` for any datagram whatsoever, so its runner sees no event. -/
+theorem C07_joint_after_end_unmatched (cfg : Cfg) (r t : Nat) (st : ObsState) (ms : MsgLayer.State)
+    (hret : ∀ o ∈ ms.outgoing, o.req ≠ r) (remote : Remote) (w : Wire) :
+    (∀ w' f, (r, w', f) ∉ respOf (processResponse ms remote w).2.1) ∧
+    feed cfg r t st (processResponse ms remote w).2.1 = (st, []) := by
+  constructor
+  · intro w' f h
+    obtain ⟨_, _, o, ho, hr, _⟩ := C02_delivery_matches ms remote w r w' f h
+    exact hret o ho hr
+  · apply feed_no_events
+    intro o ho
+    cases o with
+    | response r' w' f =>
+      have : (r', w', f) ∈ respOf (processResponse ms remote w).2.1 := by
+        simp only [respOf, List.mem_filterMap]
+        exact ⟨_, ho, rfl⟩
+      obtain ⟨_, _, o, ho', hr, _⟩ := C02_delivery_matches ms remote w r' w' f this
+      have : r' ≠ r := fun e => hret o ho' (hr.trans e)
+      simp [pipeEventOf, this]
+    | fail r' k =>
+      exfalso
+      revert ho
+      unfold processResponse
+      simp only
+      split <;> simp
+    | send _ _ _ => rfl
+    | deliver _ _ _ => rfl
+    | stop _ => rfl
+
+open Aiocoap.MsgLayer in
+/-- **C07 (… and a confirmable one is rejected with a Reset, like any unknown response).** Take a
+state in which the outstanding requests carry pairwise different tokens (`C02_tokens_distinct`:
+every reachable state) and retire request `r`.  A confirmable response that still carries the
+token `r` had — a late or repeated notification — matches nothing, is delivered to nobody and is
+answered with a Reset carrying its message id. -/
+theorem C07_joint_late_notification_reset (s : MsgLayer.State) (r : Nat) (o : OutReq)
+    (ho : o ∈ s.outgoing) (hr : o.req = r)
+    (hdist : ∀ o1 ∈ s.outgoing, ∀ o2 ∈ s.outgoing, o1.token = o2.token → o1 = o2)
+    (remote : Remote) (w : Wire) (htok : w.token = o.token) (hcon : w.mtype = .con)
+    (hresp : isResponse w.code = true) :
+    processResponse (dropOutgoing s r) remote w = (dropOutgoing s r, [], false) ∧
+    sendsOf (recvCode (dropOutgoing s r) remote false w).2 = [(s.now, remote, bare .rst w.mid)] := by
+  have hun : processResponse (dropOutgoing s r) remote w = (dropOutgoing s r, [], false) := by
+    apply C02_unmatched_never_delivered
+    intro o' ho' htok'
+    exfalso
+    simp only [dropOutgoing, List.mem_filter, bne_iff_ne, ne_eq] at ho'
+    have := hdist o' ho'.1 o ho (htok'.trans htok)
+    exact ho'.2 (this ▸ hr)
+  refine ⟨hun, ?_⟩
+  rw [C10_table, hun]
+  have hc0 : w.code ≠ 0 := by
+    intro h; rw [h] at hresp; simp [isResponse] at hresp
+  simp [expectedReply, hc0, hresp, hcon, dropOutgoing]
+
+-- C07 clause 0: the comparison itself -------------------------------------------------------------
+
+/-- **C07 (the coded comparison is RFC 7641 §3.4).** `is_recent` as coded holds exactly when
+`(V1 < V2 and V2 - V1 < 2^23) or (V1 > V2 and V1 - V2 > 2^23) or (T2 > T1 + 128 s)`; a duplicate
+(same Observe value) passes only by the clock; two values exactly half the circle apart are fresher
+in neither direction; and among 24-bit values within one half of the circle counted from any base
+(so across the wrap-around at 2^24) the sequence-number part is the order "further ahead". -/
+theorem C07_fresher_is_rfc7641 (reset v1 t1 v2 t2 : Nat) :
+    (fresher reset v1 t1 v2 t2 = true ↔ Rfc7641Fresher reset v1 t1 v2 t2) ∧
+    (fresher reset v1 t1 v1 t2 = true ↔ t2 > t1 + reset) ∧
+    (fresher reset v1 t1 (v1 + 2 ^ 23) t2 = true ↔ t2 > t1 + reset) ∧
+    (fresher reset (v1 + 2 ^ 23) t1 v1 t2 = true ↔ t2 > t1 + reset) ∧
+    (∀ b, v1 < 2 ^ 24 → v2 < 2 ^ 24 → soff b v1 < 2 ^ 23 → soff b v2 < 2 ^ 23 →
+      (serialFresher v1 v2 = true ↔ soff b v1 < soff b v2)) := by
+  refine ⟨fresher_iff _ _ _ _ _, ?_, ?_, ?_, fun b h1 h2 o1 o2 => serialFresher_soff b v1 v2 h1 h2 o1 o2⟩
+  · rw [fresher_eq, serialFresher_irrefl]; simp
+  · rw [fresher_eq, (serialFresher_half v1).1]; simp
+  · rw [fresher_eq, (serialFresher_half v1).2]; simp
+
+-- non-vacuity and sanity --------------------------------------------------------------------------
+
+def exCfg : Cfg := { reset := 128 * 2 ^ 20, observe := true }
+def exN (t v body : Nat) : TEvent := ⟨t, .message ⟨69, some v, body⟩ false⟩
+
+/-- reordering, a duplicate, the half-circle boundary, the 128 s rule at ±1 tick, a 4.04 that ends
+the observation, and a late notification -/
+def exHistory : List TEvent :=
+  [exN 0 5 0, exN 1 7 1, exN 2 6 2, exN 3 7 3, exN 4 (7 + 2 ^ 23) 4, exN 5 (6 + 2 ^ 23) 5,
+   exN (5 + 128 * 2 ^ 20) (2 ^ 23) 6, exN (6 + 128 * 2 ^ 20) (2 ^ 23) 7,
+   ⟨7 + 128 * 2 ^ 20, .message ⟨132, none, 8⟩ true⟩, exN (8 + 128 * 2 ^ 20) 9 9]
+
+example : deliveries exCfg .awaitingFirst exHistory =
+    [.response ⟨69, some 5, 0⟩, .callback ⟨69, some 7, 1⟩, .callback ⟨69, some (6 + 2 ^ 23), 5⟩,
+     .callback ⟨69, some (2 ^ 23), 7⟩, .callback ⟨132, none, 8⟩, .errback .observationCancelled] := by
+  decide
+example : finalState exCfg .awaitingFirst exHistory = .ended := by decide
+example : expectedEnd (exHistory.map (·.ev)) = [.observationCancelled] := by decide
+example : ∀ e ∈ exHistory, e.ev.isPipe = true := by decide
+example : errbacks (deliveries exCfg .awaitingFirst (exHistory.take 8)) = [] := by decide
+/-- a first response without Observe that the pipe does not mark last (the fixed defect) -/
+example : deliveries exCfg .awaitingFirst [⟨0, .message ⟨69, none, 1⟩ false⟩, exN 1 5 2] =
+    [.response ⟨69, none, 1⟩, .errback .notObservable, .stopInterest] := by decide
+
+/-- hypotheses of `C07_freshest_delivered` are met by a history that wraps around 2^24 -/
+def exWrap : List TEvent := [exN 10 (2 ^ 24 - 2) 0, exN 11 1 1, exN 12 (2 ^ 24 - 1) 2, exN 13 0 3, exN 14 1 4]
+
+example : ∀ e ∈ exWrap, ∃ m v, e.ev = .message m false ∧ m.obs = some v ∧ v < 2 ^ 24 ∧
+    soff (2 ^ 24 - 2) v < 2 ^ 23 ∧ 10 ≤ e.time ∧ e.time ≤ 10 + exCfg.reset := by
+  intro e he
+  simp only [exWrap, List.mem_cons, List.not_mem_nil, or_false] at he
+  rcases he with rfl | rfl | rfl | rfl | rfl <;>
+    exact ⟨_, _, rfl, rfl, by decide, by decide, by decide, by decide⟩
+example : finalState exCfg .awaitingFirst exWrap = .observing 1 11 := by decide
+example : accepted (trace exCfg .awaitingFirst exWrap) = [(2 ^ 24 - 2, 10), (1, 11)] := by decide
+
+-- the joint model on a concrete exchange: request 0 (token 08, to remote 5, observing) is
+-- outstanding; piggy-backed first response, a CON notification, a NON 4.04, a late CON notification
+open Aiocoap.MsgLayer in
+def exJoint : List JEv :=
+  [.net ⟨2, .recv 5 false { mtype := .ack, code := 69, mid := 100, token := [8], obs := some 5, body := 1 }⟩,
+   .net ⟨3, .recv 5 false { mtype := .con, code := 69, mid := 900, token := [8], obs := some 6, body := 2 }⟩,
+   .net ⟨4, .recv 5 false { mtype := .non, code := 132, mid := 901, token := [8], obs := none, body := 3 }⟩,
+   .net ⟨5, .recv 5 false { mtype := .con, code := 69, mid := 902, token := [8], obs := some 7, body := 4 }⟩]
+
+def exJointStart : JState :=
+  ⟨{ MsgLayer.init ⟨1000, 100⟩ 100 7 (fun _ => 2000) with
+      outgoing := [{ token := [8], remote := some 5, req := 0, observing := true, idx := 0 }] },
+   .awaitingFirst⟩
+
+example : (jointRun exCfg 0 exJointStart exJoint).2 =
+    [.response ⟨69, some 5, 1⟩, .callback ⟨69, some 6, 2⟩, .callback ⟨132, none, 3⟩,
+     .errback .observationCancelled] := by decide
+example : (jointRun exCfg 0 exJointStart exJoint).1.st = .ended := by decide
+example : (jointRun exCfg 0 exJointStart exJoint).1.ms.outgoing = [] := by decide
+/-- the late CON notification (mid 902) is answered with a Reset -/
+example : (jointStep exCfg 0 (jointRun exCfg 0 exJointStart (exJoint.take 3)).1 (exJoint.getD 3 (.app 0 .obsCancel))).2.1 =
+    [.send 5 5 { mtype := .rst, code := 0, mid := 902, token := [], obs := none, body := 0 }] := by decide
+example : ∀ e ∈ exJoint, e.isSubmit 0 = false := by decide
+example : ∀ o ∈ (MsgLayer.init ⟨1000, 100⟩ 100 7 (fun _ => 2000)).outgoing, o.req ≠ 0 := by
+  simp [MsgLayer.init]
 
 end Aiocoap.Observe
